@@ -26,4 +26,20 @@ PROPS = {
             "SHA-256 inside rust-crypto is validated by differential testing, not proved",
         ],
     },
+    "C16": {
+        "level": "proof",
+        "suites": ["c16_history", "c16_table"],
+        "rule": "rule histories and file-state tables with 0..50 entries and 0..8 targets written by ruler itself and decoded by the model; "
+                "for each: trailing bytes, strict prefixes (every one for small instances), single bit flips (every bit for small instances), "
+                "duplicate keys, an independent encoding of the documented layout, non-UTF-8 and 4-byte UTF-8 paths; plus random byte strings and "
+                "hostile length fields (u64::MAX, huge vectors). Distinct by hash of the byte string; non-trivial = non-empty input.",
+        "trusted_base": COMMON_TB + [
+            "bincode 1.3 / serde are modelled (coq/Base/Bincode.v), differentially tested, not verified",
+            "HashMap modelled as entry list in file order with later-duplicate-wins (canon_map)",
+        ],
+        "assumptions": [
+            "theorems are about coq/Base/Bincode.v; tied to src/history.rs, src/current.rs, src/blob.rs by suites c16_history and c16_table through History::{write,read}_rule_history and CurrentFileStates::{from_file,to_file}",
+            "panic freedom of the Rust readers is observed with catch_unwind on every generated input, not proved",
+        ],
+    },
 }
